@@ -3,6 +3,7 @@
   trace lines. Imports nothing from Mathlib (links as a lean_exe).
 -/
 import CatVerif.Model.Api
+import CatVerif.Model.Measure
 open Cat
 
 namespace Drv
@@ -134,7 +135,7 @@ def traceLine (name : String) (before : World) (after : World) (ret : Int) : Str
   let full : Int := if Gen.is_unsolicited_buffer_full s.rcount D.cap then Gen.CAT_STATUS_ERROR_BUFFER_FULL else 0
   let cb := cksum (St.region D s .cmd 0)
   let ub := cksum (St.region D s .uns 0)
-  s!"{name} ret={ret} ev={evs} m={mem} q={busy},{hold},{full},{optNat s.cmd},{optNat s.ucmd} b={cb},{ub} st={s.state.code},{s.ustate.code},{s.rcount}"
+  s!"{name} ret={ret} ev={evs} m={mem} q={busy},{hold},{full},{optNat s.cmd},{optNat s.ucmd} b={cb},{ub} st={s.state.code},{s.ustate.code},{s.rcount},{mu D s}"
 
 /-- distribute the ordered callback answers of a `svc` line over the two machines -/
 def mkSvcIn (w : World) (r wr : Bool) (inq : List Nat) (o0 : Opts) (hq vq : List HAnswer := []) : SvcIn :=
